@@ -69,6 +69,20 @@ add4={
 for k,v in add4.items():
     add[k]=(add[k]+' '+v) if k in add else '**Wave 3:** '+v
 
+add5={
+'C10':"Wave 5: the int-key branch of `Token.__setitem__` (`Token.set_bit`) is regenerated by the flattening pre-pass as `tok_setbit` and proved exact for all sizes/indices/values (`c10_setbit_exact`: bit i := value≠0, other bits untouched; `c10_setbit_rejects_bad_index`; `c10_setbit_readback`; any value outside {0,1} is silently stored as 1 — `c10_setbit_truncates_refuted`, only ppci caller passes 1), 840 correspondence cases on real token classes per run.",
+'C13':"Wave 5: `c13_holes_of_relaxation_ok` / `c13_holes_are_site_halves` discharge the former assumption on hole lists — for any object on which the candidate loop of `do_relaxations` succeeds, each hole is the second halfword of a relocation site, and when a section's relocation sites are ≥ 4 bytes apart (premise evaluated on every generated program) the sorted hole list given to `_apply_relaxation_holes` is sorted, disjoint and positive for every relocation order and subset shrunk; `replace_relocs` bookkeeping remains correspondence-only.",
+'C20':"Wave 5: decoders totally characterised on every byte iterator — `c20_decode_truncated` (no terminating byte, incl. empty ⇒ StopIteration), `c20_decode_total` (well-formed prefix decoded to its spec value with exact rest, else StopIteration) and `c20_decode_ok_inv` (any returned (v, rest) stems from exactly one well-formed encoding).",
+'C27':"Wave 5: the enumerator-value loop `CContext._calculate_enum_values` is modelled (`Model/CEnum.v`, tie H, 160 enumerator lists per run through the real `get_enum_value`) and `c27_enum_values_exact` proves, for every enumerator list and data model, that each constant gets exactly its C11 6.7.2.2 value and that a diagnostic (never an internal error or a wrapped value) results exactly when a value is not representable as int.",
+'C33':"Wave 5: set-algebra laws as equalities of the returned canonical representations (`c33_canonical_ext`, `c33_union_laws` comm/assoc/idem/unit, `c33_inter_comm`, `c33_symdiff_law` a^b=(a|b)-(a&b), `c33_demorgan_law` a-(b|c)=(a-b)&(a-c), `c33_double_diff_law`), with `c33_result_sizes` so fuel hypotheses mention the inputs only; the same laws are run through the implementation's `==`/`hash` on every oracle pair.",
+'C34':"Wave 5: the task loop of `TaskRunner.run` with raising tasks (`Model/TasksExec.v`, tied by 1000 quick / 4225 thorough real runs with raising recording tasks): `c34_failure_blocks_dependants` (no dependant of the failed target starts), `c34_started_deps_completed` (every dependency of a started target has completed), `c34_no_failure_all_tasks_run` (a run without failure has run all tasks of exactly the reachable targets); `expand_macros`/`get_task` failures not modelled.",
+'C35':"Wave 5: register/memory payloads of `GdbDebugDriver` (`Model/RspRegs.v`, 266 correspondence cases per run against the real driver with a scripted transport): `c35_mem_hex_roundtrip` (write_mem→read_mem for every byte string), `c35_registers_roundtrip` (set_registers→_get_general_registers for every register list and all values on little-endian targets), `c35_set_registers_defined`; observed, outside the property's framing claim and not repaired: `_pack_register` ignores the target byte order.",
+'C38':"Wave 5: whole constant-expression trees of any depth (nested Binop/Cast, unknown leaves): a tree that evaluates at run time folds at its root to exactly that in-range value (`c38_tree_fold_exact`), and no well-formed tree — undefined inner operations and chain rules with constant subtrees included — makes the pass raise or create an out-of-range constant (`c38_tree_never_raises`).",
+'C39':"Wave 5: also proved for `wrap_negative` (succeeds exactly on [-2^(n-1), 2^n) with result v mod 2^n, else ValueError; inverted by `to_signed` on the signed range), `inrange` (decides the signed n-bit range = `signed_of n v = v`) and `align` (least multiple of m ≥ v, m > 0), with an oracle sweep for the three.",
+}
+for k,v in add5.items():
+    add[k]=(add[k]+' '+v) if k in add else '**Wave 5:** '+v[len('Wave 5: '):]
+
 lines=s.split('\n')
 a=next(i for i,l in enumerate(lines) if l.startswith('### 10.2'))
 b=next(i for i,l in enumerate(lines) if l.startswith('### 10.3'))
@@ -80,7 +94,7 @@ for i in range(a,b):
     for f in glob.glob('/verif/coq/Props/%s*.v'%pid):
         n+=len(re.findall(r'^\s*Theorem ',open(f).read(),re.M))
     body=m.group(5)
-    body=re.sub(r' \*\*Wave 3:\*\*.*$','',body)
+    body=re.sub(r' \*\*Wave [35]:\*\*.*$','',body)
     if pid in add: body=body.rstrip()+' '+add[pid]
     lines[i]='| %s | %s | %s | %d | %s |'%(pid,m.group(2),m.group(3),n,body)
 open(p,'w').write('\n'.join(lines))
